@@ -17,7 +17,7 @@ func init() {
 		"DECIDED: D1 error discipline — for every call site, in any function reachable from the public decoders, whose callee is declared in the module and returns an error: on every CFG path the error is either returned directly or nil-tested, and every path on which it is non-nil returns a non-nil error (nothing is absorbed). "+
 			"D2 (structural part; bounds are C18-D1) — primitive decoders and the plain decoder's skip arms return io.EOF before any store to the cursor. "+
 			"D3 refusals are wired — the default arm of every flag dispatch (sketch decoder, both fallback decoders, mapping.Decode, generic and paginated bin decoders) returns a non-nil error or delegates to a decoder that does; a mapping mismatch returns an error and the mapping is only assigned under the nil-or-Equals guard; every success return of the sketch decoder has passed the missing-mapping test. "+
-			"D4 bin decoders succeed only after the announced number of items: every exit of an item loop is controlled by the decoded count or returns a non-nil error; a counter against N is φ(0, counter + 1) tested with < (or advances by len(X) for a batch X that one inner range loop reads item by item and that was cut to at most N − counter). "+
+			"D4 bin decoders succeed only after the announced number of items: every exit of an item loop is controlled by the decoded count or returns a non-nil error; a counter against N is φ(0, counter + 1) tested with < (or advances by len(X) for a batch X that one inner range loop reads item by item and that was cut to at most N − counter); every store's bin decoder returns nil only after a primitive decoder (or the decoder it delegates to) has run; the generic and the paginated decoder return no error of their own making on a known layout (only what the primitives refuse, or an unknown layout). "+
 			"D5 block order of the exact variant — every path of its Encode reaches the inner sketch's Encode, and the Count block (when written) precedes it: the decoder's final refusal of 'bins without a count' then never hits a prefix cut between blocks. "+
 			"SHARED (obligations of other properties that decide clauses this property states too, re-evaluated here under their home rule ids): C19-D2/D3 (Equals of the three mappings: same-type comma-ok test and the symmetric tolerance table over gamma AND offset of the two operands). C19-D1 binary part (the reader arm of each mapping flag decodes both float64LE fields and returns each error: a cut inside the mapping block is an error). C18-D1 (the primitive decoders, unrolled completely: every byte read is preceded by its own length test, end of input is io.EOF with nothing consumed). "+
 			"NOT DECIDED: panics from absurd-but-well-formed input (an index of 2^62 handed to a dense store); enumeration of truncation points is replaced by the every-path argument.",
